@@ -835,9 +835,9 @@ def _name_diffs(fail: Fail):
 
 def _known_init_param_names(case, fail: Fail) -> bool:
     """Instance attributes assigned in `__init__` are built in the scope of the `__init__` function, where a name equal to
-    one of its parameters resolves to `Class(param)` and a name defined in its body to `Class.__init__.name`; the reloaded
-    attribute is attached to the class. Every name that differs must have one of these two forms before the round trip,
-    in an attribute value/annotation."""
+    one of its parameters resolves to `Class(param)`, a name defined in its body to `Class.__init__.name` and the name of the
+    enclosing class to that class (even when the class has a member of the same name); the reloaded attribute is attached
+    to the class. Every name that differs must have one of these three forms, in an attribute value/annotation."""
     import re
 
     diffs = _name_diffs(fail)
@@ -846,8 +846,15 @@ def _known_init_param_names(case, fail: Fail) -> bool:
     for where, pairs in diffs:
         if "parameters" in where or not pairs:
             return False
-        # `name -> pkg.Class(name)` (a parameter of __init__) or `name -> pkg.Class.__init__.name` (defined in its body)
-        if not all(re.fullmatch(r"(\w+)->[\w.]+\(\1\)", x) or re.fullmatch(r"(\w+)->[\w.]+\.__init__\.\1", x) for x, _ in pairs):
+        # `name -> pkg.Class(name)` (a parameter of __init__), `name -> pkg.Class.__init__.name` (defined in its body), or
+        # `Class -> pkg.Class` becoming `pkg.Class.Class` (from the function scope the name of the enclosing class wins,
+        # from the class scope its member of the same name does)
+        for x, y in pairs:
+            name, _, before = x.partition("->")
+            if re.fullmatch(r"(\w+)->[\w.]+\(\1\)", x) or re.fullmatch(r"(\w+)->[\w.]+\.__init__\.\1", x):
+                continue
+            if (before == name or before.endswith("." + name)) and y == f"{name}->{before}.{name}":
+                continue
             return False
     return True
 
@@ -873,7 +880,7 @@ def _known_dataclass_inherited_fields(case, fail: Fail) -> bool:
 # slug -> what the generator / comparison does while the finding is listed
 STEERING: dict = {
     "parsed-sections": "full-form identity is compared modulo docstring.parsed when a docstring parser is selected",
-    "init-param-names": "`__init__` parameters and objects defined in `__init__` bodies are renamed so that no expression of an instance attribute mentions one",
+    "init-param-names": "`__init__` parameters, objects defined in `__init__` bodies and nested classes named like their enclosing class are renamed so that no expression of an instance attribute resolves differently from the function scope",
     "dataclass-inherited-fields": "classes decorated with dataclasses.dataclass are rendered without bases",
 }
 KNOWN: dict = {
@@ -892,10 +899,10 @@ def _steered(slug: str, case) -> bool:
         return '"dc": true' in text or '["known", 2]' in text
     if slug == "init-param-names":
 
-        def walk(stmts):
+        def walk(stmts, enclosing=None):
             for stmt in stmts:
                 if stmt[0] == "class":
-                    if walk(stmt[2]["body"]):
+                    if stmt[1] == enclosing or walk(stmt[2]["body"], stmt[1]):
                         return True
                 elif stmt[0] == "func" and stmt[1] == "__init__" and stmt[2]["selfattrs"]:
                     p = stmt[2]["params"]
